@@ -186,7 +186,7 @@ SPECS["C13"] = {
     "functions": ["dicom_object::mem::InMemDicomObject::{apply_leaf, apply_change_value_impl, put_element, remove_element, get, invalidate_if_charset_changed}", "dicom_core::header::DataElement::{new, empty, into_parts}",
                   "dicom_object::mem::InMemDicomObject::apply (selector navigation), dicom_core::header::DataElement::items_mut, dicom_core::ops::AttributeAction::is_constructive"],
     "bounds": "nested: selector (tag)[item].(leaf tag) with item index 0..2 on an object holding one sequence of 0-1 empty items and one primitive element, every tag symbolic, actions Set / Replace / Remove; flat: objects of 1-2 elements (thorough 0-2) whose tags are symbolic and pairwise distinct, with one symbolic U16 value each and VR US / LO; the addressed tag is symbolic (may hit any stored element or none); "
-              "new value: one symbolic U16, or a 2-character symbolic text; new VR one of OW / UN / SS; quick: 7 actions, thorough: 9",
+              "new value: one symbolic U16, or a 2-character symbolic text; new VR one of OW / UN / SS; Set / Replace also with an EMPTY value on an object whose first element is a data set sequence with one item; quick: 9 actions, thorough: 11",
     "outside": "selectors with more than one nested step, items that already hold attributes, PushStr / PushI32 / ... / Truncate, objects with sequences or more than 2 elements, FileMetaTable's operations, writing the objects in every transfer syntax and reading them back",
     "assumptions": ["BTreeMap::{get, get_mut, insert, remove, contains_key} as a finite map with symbolic keys (a lookup forks on key equality; get_mut returns an alias of the stored slot)",
                     "the dictionary lookup for an absent attribute answers any of US / LO / SQ / OB or nothing (UN); the native replay uses the real dictionary and does not compare the VR of a created attribute",
